@@ -35,12 +35,18 @@
 (*   AllowSilentInit  connection_init with a payload that is not a JSON    *)
 (*                    object: the handler returns without close frame,     *)
 (*                    without closing the socket, without CloseFunc        *)
+(*                    (REPAIRED in /repo by 930d13f: the constant stays,   *)
+(*                    FALSE in every registered configuration)             *)
 (*   AllowDoubleError a resolver that set a subscription error and then    *)
 (*                    panicked gets two `error` frames                     *)
+(*   AllowRestartRace an id is started again right after its completion    *)
+(*                    was received; the finished operation's deferred      *)
+(*                    delete(active, id) removes the NEW registration, so  *)
+(*                    stop(id) / close() do not cancel the new operation   *)
 (***************************************************************************)
 EXTENDS Naturals, Sequences, FiniteSets, TLC
 
-CONSTANTS AllowDupStart, AllowSilentInit, AllowDoubleError
+CONSTANTS AllowDupStart, AllowSilentInit, AllowDoubleError, AllowRestartRace
 
 \* c: configuration of the connection  [proto : "gws" | "tws", initfn : BOOLEAN, tmo : BOOLEAN]
 \*    tmo = the server may end the connection by a timer of its own
@@ -157,20 +163,32 @@ Frame_F(w, f, id, i, k) ==
 \* "Stall": the driver waited (generously, twice) for something the property
 \* demands and it did not happen while the connection stayed open.
 \*   stop-cancel(i)  stop(id) was sent, Source i of that id still has not seen ctx.Done
+\*   termination(i)  Source i ended by itself, neither error nor complete arrived
 \*   end             the connection must end (client sent a closing message) and did not
+\* The property never admits a Stall; the named deviations do, in their situation:
+OtherOfId(w, i) == OfId(w, w.I[i].id) \ {i}
+DupStall(w, i) == AllowDupStart /\ "dup" \in w.devs /\ i \in Insts(w) /\ OtherOfId(w, i) # {}
+\* the id was restarted after an earlier operation of it was completed towards the client
+RestartStall(w, i) == /\ AllowRestartRace /\ i \in Insts(w) /\ w.I[i].src = "run"
+                      /\ \E j \in OtherOfId(w, i) : w.I[j].cp >= 1
 Stall_G(w, c, what, i) ==
-  \/ /\ what = "stop-cancel" /\ AllowDupStart /\ "dup" \in w.devs
-     /\ i \in Insts(w) /\ \E j \in OfId(w, w.I[i].id) : j # i
+  \/ what = "stop-cancel" /\ (DupStall(w, i) \/ RestartStall(w, i))
   \/ what = "end" /\ AllowSilentInit /\ w.first = "initbad"
-Stall_F(w, what) == [w EXCEPT !.devs = w.devs \cup {what}]
+Stall_F(w, what, i) ==
+  [w EXCEPT !.devs = w.devs \cup {IF what = "end" THEN "silentinit" ELSE IF DupStall(w, i) THEN "dup-stop" ELSE "restart"}]
 
 \* end of the session: CloseCancels (no Source still waiting on an uncancelled
 \* context), CloseOnce second half, nothing of the transport package alive
+Tolerated(w) == (AllowDupStart /\ "dup" \in w.devs) \/ (AllowRestartRace /\ "restart" \in w.devs)
+StillRunning(w) == {i \in Insts(w) : w.I[i].src = "run"}
 Final_G(w, c, leaked) ==
-  /\ leaked = 0
-  /\ \A i \in Insts(w) : w.I[i].src # "run"
+  /\ leaked = 0 \/ Tolerated(w)
+  /\ \A i \in StillRunning(w) : Tolerated(w) /\ OtherOfId(w, i) # {}
   /\ \/ w.closeCalls = 1
      \/ AllowSilentInit /\ w.first = "initbad" /\ w.closeCalls = 0
+Final_F(w, leaked) ==
+  [w EXCEPT !.devs = w.devs \cup (IF leaked > 0 \/ StillRunning(w) # {} THEN {"outlives"} ELSE {})
+                            \cup (IF w.closeCalls = 0 THEN {"silentinit"} ELSE {})]
 
 \* ------------------------------------------------ stand-alone state machine --
 \* (sanity model: the environment may produce any event whose guard holds)
